@@ -17,9 +17,12 @@ open Classical
   pi := Real.pi
   mu0 := μ
   lt a b := decide (a < b)
+  le a b := decide (a ≤ b)
   eq0 a := decide (a = 0)
   log := Real.log
   atan2 := fun y x => Complex.arg ⟨x, y⟩
+  sin := Real.sin
+  cos := Real.cos
 
 /-- a fixed positive real standing for mu_0 where its value does not matter -/
 noncomputable def mu0R : ℝ := 4 * Real.pi * (1 / 10000000)
@@ -32,6 +35,9 @@ theorem mu0R_pos : 0 < mu0R := by unfold mu0R; positivity
 @[simp] theorem sqrt_real (μ : ℝ) (x : ℝ) : @Num.sqrt ℝ (realNum μ) x = Real.sqrt x := rfl
 @[simp] theorem abs_real (μ : ℝ) (x : ℝ) : @Num.abs ℝ (realNum μ) x = |x| := rfl
 @[simp] theorem lt_real (μ : ℝ) (a b : ℝ) : @Num.lt ℝ (realNum μ) a b = decide (a < b) := rfl
+@[simp] theorem le_real (μ : ℝ) (a b : ℝ) : @Num.le ℝ (realNum μ) a b = decide (a ≤ b) := rfl
+@[simp] theorem sin_real (μ : ℝ) (x : ℝ) : @Num.sin ℝ (realNum μ) x = Real.sin x := rfl
+@[simp] theorem cos_real (μ : ℝ) (x : ℝ) : @Num.cos ℝ (realNum μ) x = Real.cos x := rfl
 @[simp] theorem log_real (μ : ℝ) (x : ℝ) : @Num.log ℝ (realNum μ) x = Real.log x := rfl
 @[simp] theorem atan2_real (μ : ℝ) (y x : ℝ) : @Num.atan2 ℝ (realNum μ) y x = Complex.arg ⟨x, y⟩ := rfl
 @[simp] theorem eq0_real (μ : ℝ) (a : ℝ) : @Num.eq0 ℝ (realNum μ) a = decide (a = 0) := rfl
